@@ -40,6 +40,7 @@ class ExportConfigC(ExportConfig):
     
     def _parse_scalar(self, param, value):
         if isinstance(param, StringType):
+            value = str(value).replace("\\","\\\\").replace("\"","\\\"")
             value = f"\"{value}\""
         elif isinstance(param, BooleanType):
             value = "true" if value else "false"
